@@ -42,6 +42,7 @@ inductive PVal
   | str (s : String)
   | err (s : String)
   | nil
+  | list (s : String)      -- a value of a non-comparable dynamic type (`[]string{s}`): cannot be a map key or compared with ==
   deriving DecidableEq, Repr, Inhabited
 
 /-- error values.  `pkgWrap` = `errors.Wrap(inner, msg)` of github.com/pkg/errors (has `Cause()`),
@@ -49,6 +50,7 @@ inductive PVal
     `errors.WithStack(RecoveredPanicError{V: v, Stacktrace: …})`. -/
 inductive Err
   | base (txt : String)
+  | ubase (txt : String)     -- an error value of a non-comparable dynamic type (`type fieldErrors []string`) with this text
   | pkgWrap (msg : String) (inner : Err)
   | fmtWrap (msg : String) (inner : Err)
   | recovered (v : PVal)
@@ -57,6 +59,7 @@ inductive Err
 /-- `err.Error()`; `none` = contains a stack trace, not predictable, equal to no listed text -/
 def Err.text : Err → Option String
   | .base t => some t
+  | .ubase t => some t
   | .pkgWrap m e => (Err.text e).map (fun t => m ++ ": " ++ t)
   | .fmtWrap m e => (Err.text e).map (fun t => m ++ ": " ++ t)
   | .recovered _ => none
@@ -85,6 +88,7 @@ structure Ctx where
   depth : Nat
   deadline : Bool
   done : Bool
+  far : Bool := false     -- the deadline lies beyond the horizon of every Timeout of the chain (set by the caller)
   deriving DecidableEq, Repr, Inhabited
 
 /-- the `_watermill_delayed_for` metadata: missing, a duration in ns, or a string that
@@ -101,6 +105,8 @@ structure CallObs where
   done : Bool
   acked : Bool
   delay : Delay
+  far : Bool             -- the deadline it sees is later than any Timeout of the chain allows
+  nacked : Bool
   deriving DecidableEq, Repr, Inhabited
 
 /-- state of the incoming message plus the logical environment of one call of the chain -/
@@ -114,6 +120,7 @@ structure St where
   script : List Res      -- results the scripted handler still has to produce (the last one repeats)
   log : List CallObs     -- what the scripted handler saw, one entry per invocation
   hcid : Option String   -- the scripted handler sets the incoming message's correlation id to this value when called
+  nacked : Bool          -- a Nack was sent on the message before it entered the chain (`Ack()` is then a no-op returning false)
   deriving DecidableEq, Repr, Inhabited
 
 abbrev Handler := St → Res × St
@@ -125,7 +132,7 @@ def scripted : Handler := fun st =>
   let md1 := match st.hcid with
     | some v => mset st.md cidKey v
     | none => st.md
-  let st1 := { st with log := st.log ++ [⟨st.ctx.deadline, st.ctx.done, st.acked, st.delay⟩], md := md1 }
+  let st1 := { st with log := st.log ++ [⟨st.ctx.deadline, st.ctx.done, st.acked, st.delay, st.ctx.far, st.nacked⟩], md := md1 }
   match st.script with
   | [] => (.ret [] none, st1)
   | [r] => (r, st1)
@@ -164,7 +171,7 @@ inductive Mw
   deriving DecidableEq, Repr, Inhabited
 
 /-- the context `Timeout` puts on the message for the call -/
-def deriveCtx (c : Ctx) (expired : Bool) : Ctx := ⟨c.depth + 1, true, c.done || expired⟩
+def deriveCtx (c : Ctx) (expired : Bool) : Ctx := ⟨c.depth + 1, true, c.done || expired, false⟩
 
 def timeout (expired : Bool) (h : Handler) : Handler := fun st =>
   let (r, st') := h { st with ctx := deriveCtx st.ctx expired }
@@ -191,7 +198,10 @@ def ignoreErrors (listed : List String) (h : Handler) : Handler := fun st =>
     | none => (r, st')
   | r => (r, st')
 
-def instantAck (h : Handler) : Handler := fun st => h { st with acked := true }
+/-- `msg.Ack()`: acknowledges unless a Nack was sent before (then it is a no-op; its result is not looked at) -/
+def ackMsg (st : St) : St := if st.nacked then st else { st with acked := true }
+
+def instantAck (h : Handler) : Handler := fun st => h (ackMsg st)
 
 def throttle (h : Handler) : Handler := fun st => h { st with ticks := st.ticks + 1 }
 
